@@ -124,7 +124,13 @@ with in_alt (a : alt) : list string :=
                                 | n :: l' => (in_nitem n ++ (if item_flag (ni_id n) then go l' else []))%list
                                 end) items end
 with in_nitem (n : nitem) : list string :=
-  match n with NItem _ _ _ i => in_item i end.
+  (* NamedItem.initial_names: a gather whose element can match nothing may start with its separator *)
+  match n with NItem id _ _ i =>
+    match i with
+    | Gather _ s _ => if item_flag id then (in_item i ++ in_item s)%list else in_item i
+    | _ => in_item i
+    end
+  end.
 
 (* make_first_graph: rule -> set of initial names (sorted, as a canonical list); names that are
    not rules become vertices without edges *)
